@@ -168,7 +168,8 @@ pub fn candidates(c: &Case) -> Vec<String> {
 // (C17: "up to floating-point rounding of sums").
 
 /// (exact part, float part) of every observable
-fn big_fingerprint(g: &Graph<u32, u32>, weighted: bool) -> (Vec<String>, Vec<f64>) {
+fn big_fingerprint(ga: &std::sync::Arc<Graph<u32, u32>>, weighted: bool) -> (Vec<String>, Vec<f64>) {
+    let g: &Graph<u32, u32> = ga;
     use graphrs::algorithms::centrality::{degree, eigenvector};
     use graphrs::algorithms::cluster;
     use graphrs::algorithms::community::louvain;
@@ -247,8 +248,16 @@ fn big_fingerprint(g: &Graph<u32, u32>, weighted: bool) -> (Vec<String>, Vec<f64
     fl.push(g.size(true));
     fl.push(g.get_density());
     // seeded Louvain
-    let lp = louvain::louvain_partitions(g, weighted, None, None, Some(11));
-    ex.push(match lp { Err(e) => format!("E{}", err_code(&e.kind)), Ok(levels) => levels.into_iter().map(|l| sets(Ok(l))).collect::<Vec<_>>().join("|") });
+    // under a watchdog (a detached thread on a shared copy): a Louvain that does not come back within 20 s is recorded as such
+    // instead of stalling the whole run (termination itself is C13's subject)
+    let (tx, rx) = std::sync::mpsc::channel();
+    let g2 = ga.clone();
+    std::thread::spawn(move || { let _ = tx.send(louvain::louvain_partitions(&g2, weighted, None, None, Some(11))); });
+    ex.push(match rx.recv_timeout(std::time::Duration::from_secs(20)) {
+        Err(_) => "louvain:no-answer-within-20s".to_string(),
+        Ok(Err(e)) => format!("E{}", err_code(&e.kind)),
+        Ok(Ok(levels)) => levels.into_iter().map(|l| sets(Ok(l))).collect::<Vec<_>>().join("|"),
+    });
     (ex, fl)
 }
 
@@ -271,8 +280,8 @@ pub fn observe_big(t: &mut Toks) -> String {
         edges.push(if weighted { graphrs::Edge::with_weight(a, b, w) } else { graphrs::Edge::new(a, b) });
     }
     let specs = if directed { graphrs::GraphSpecs::directed_create_missing() } else { graphrs::GraphSpecs::undirected_create_missing() };
-    let g: Graph<u32, u32> = match Graph::new_from_nodes_and_edges(names.iter().map(|x| graphrs::Node::from_name(*x)).collect(), edges, specs) {
-        Ok(g) => g,
+    let g: std::sync::Arc<Graph<u32, u32>> = match Graph::new_from_nodes_and_edges(names.iter().map(|x| graphrs::Node::from_name(*x)).collect(), edges, specs) {
+        Ok(g) => std::sync::Arc::new(g),
         Err(e) => return format!("i.build=E{}", err_code(&e.kind)),
     };
     let run = |k: usize| rayon::ThreadPoolBuilder::new().num_threads(k).build().unwrap().install(|| big_fingerprint(&g, weighted));
